@@ -110,6 +110,8 @@ def namespace():
         return ev(c.returns[1], n2)
     ns["post"] = post
     for name, fn in predicates(ns).items():
+        if name in vars(specref) and callable(vars(specref)[name]):
+            continue          # an explicit executable twin in replay/specref.py (same meaning, efficient enumeration) takes precedence
         ns[name] = fn
     return ns
 
@@ -135,8 +137,10 @@ def predicates(ns):
     for mod in _PRED_SRC:
         ast.fix_missing_locations(mod)
         exec(compile(mod, "<predicate>", "exec"), ns, out)
+    twin = lambda k: k in vars(specref) and callable(vars(specref)[k])
+    keep = {k: v for k, v in out.items() if not twin(k)}
     for f in out.values():
-        f.__globals__.update(out)
+        f.__globals__.update(keep)
     return out
 
 
